@@ -27,7 +27,8 @@ def main():
     dirs = sorted(os.path.join(VERIF, "seeded", x) for x in os.listdir(os.path.join(VERIF, "seeded")))
     first = int(args[0]) if args else 1
     last = int(args[1]) if len(args) > 1 else 10**6
-    dirs = [d for d in dirs if first <= int(os.path.basename(d)[1:3]) <= last]
+    num = lambda d: int(os.path.basename(d)[1:].split('_')[0])
+    dirs = sorted((d for d in dirs if first <= num(d) <= last), key=num)
     missed = 0
     with concurrent.futures.ThreadPoolExecutor(max_workers=jobs) as ex:
         for name, verdict, _ in ex.map(one, dirs):
